@@ -18,6 +18,11 @@ def signature(rec, info):
     e = info.get("event") or {}
     if e.get("ev") == "Exec":
         o = e["o"]
+        if o["res"] == "hit" and not o["idok"] and o["cont"] == "orig":
+            return "hit-with-foreign-id"
+        prior = sorted({x["kind"] for x in rec["events"][:info.get("line_in_trace", 1) - 1] if x["ev"] == "Mutate" and x.get("n", 0) > 0})
+        if prior and (o["res"] == "anomaly" or o["cont"] != "orig" or o["res"] == "hit"):
+            return "served-answer-corrupted-after-mutation-of:%s:%s" % ("+".join(prior), rec["tag"])
         if o["res"] == "hit" and o["cont"] != "orig":
             # which kind of handle had been mutated before?
             kinds = sorted({x["kind"] for x in rec["events"] if x["ev"] == "Mutate" and x.get("id") == o["id"] and x.get("n", 0) > 0})
@@ -108,6 +113,13 @@ def run(ctx):
     acc, rej = judge(ctx, tr, job)
     nr = race_verdict(ctx, stderr, job)
     if not rej and not nr:
+        def corrupt(t):
+            for e in t:
+                if e["ev"] == "Exec" and e["o"]["res"] == "hit":
+                    e["o"]["cont"] = "mut"
+                    return t
+            return None
+        cl.binding_selfcheck(ctx, [r["events"] for r in tr], corrupt, "hit content")
         if len(tr) < len(behs):
             raise vlib.Infra("driver returned %d usable traces for %d behaviours" % (len(tr), len(behs)))
         hits = sum(1 for r in tr for e in r["events"] if e["ev"] == "Exec" and e["o"]["res"] == "hit")
